@@ -189,19 +189,76 @@ def after_stop_runs(chk, n):
             chk.violation("C12:stop:scenario-started-after-stop", "ScenarioStarted delivered after the stop request", {"stream": ps})
 
 
+def ki_runs(chk, n):
+    """a real KeyboardInterrupt reaching the consumer while it waits on the queue: afterwards at most one further send
+    per worker and no later phase runs"""
+    import queue as _q
+    from schemathesis.engine.phases import PhaseName
+    import schemathesis.transport.requests as treq
+    rng = chk.rng
+    for _ in range(n):
+        workers = rng.choice([1, 2, 3])
+        n_ops = rng.randint(workers + 1, 6)
+        sends: list = []
+        real_send = treq.RequestsTransport.send
+        real_get = _q.Queue.get
+        fire_at = rng.randint(2, 5)
+        state = {"n": 0, "t": None}
+
+        def send(self, case, **kw):
+            sends.append((threading.current_thread().name, time.monotonic()))
+            return real_send(self, case, **kw)
+
+        def get(self, *a, **kw):
+            ev = real_get(self, *a, **kw)
+            if threading.current_thread() is threading.main_thread() and type(ev).__name__.startswith("Scenario"):
+                state["n"] += 1
+                if state["n"] == fire_at and state["t"] is None:
+                    state["t"] = time.monotonic()
+                    raise KeyboardInterrupt
+            return ev
+
+        def slow(p, k):
+            time.sleep(0.01)
+            return 200
+        with E.Server(E.make_app(slow)) as srv, mock.patch.object(treq.RequestsTransport, "send", send), \
+                mock.patch.object(_q.Queue, "get", get):
+            evs = E.run_engine(E.load_schema(srv.url, n_ops), E.engine_config(phases=[PhaseName.COVERAGE, PhaseName.FUZZING],
+                                                                               workers=workers, max_examples=6))
+        if state["t"] is None:
+            continue
+        late: dict = {}
+        for th, t in sends:
+            if t > state["t"] + 0.002:
+                late[th] = late.get(th, 0) + 1
+        ps = E.plan_canon(evs)
+        chk.case("ctrl-c:engine-run", key=[workers, n_ops, fire_at, sorted(late.items())],
+                 sample={"workers": workers, "interrupt_at_scenario_event": fire_at, "sends_after_interrupt_per_thread": late})
+        if any(v > 1 for v in late.values()) or len(late) > workers:
+            chk.violation("C12:interrupt:more-than-one-send-per-worker-after-KeyboardInterrupt",
+                          f"sends started after the interrupt per worker thread: {late}", {"late": late, "stream": ps})
+        idx = next((i for i, e in enumerate(ps) if e["k"] == "Interrupted"), None)
+        if idx is not None and any(e["k"] in ("ScenarioStarted", "SuiteStarted") for e in ps[idx + 1:]):
+            chk.violation("C12:interrupt:new-scenario-or-suite-after-KeyboardInterrupt",
+                          "a scenario or suite was started after the run had been interrupted", {"stream": ps})
+
+
 def unique_runs(chk, n):
     from schemathesis.engine.phases import PhaseName
     rng = chk.rng
     raw = {"openapi": "3.0.2", "info": {"title": "t", "version": "1"},
            "paths": {"/op0": {"get": {"parameters": [{"name": "q", "in": "query", "required": True,
-                                                       "schema": {"type": "boolean"}}],
+                                                       "schema": {"type": "string", "enum": ["true", "false", "maybe"]}}],
                                       "responses": {"200": {"description": "ok"}}}}}}
     for _ in range(n):
         log: list = []
-        app = E.make_app(lambda p, k: 200, log)
+        import flask
+        failing = rng.random() < 0.6     # a request whose check fails must not be repeated either
+        app = E.make_app(lambda p, k: 500 if failing and flask.request.args.get("q") == "true" else 200, log)
         workers = rng.choice([1, 2])
+        phases = rng.choice([[PhaseName.FUZZING], [PhaseName.COVERAGE, PhaseName.FUZZING]])
         with E.Server(app) as srv:
-            E.run_engine(E.load_schema(srv.url, raw=raw), E.engine_config(phases=[PhaseName.FUZZING], workers=workers,
+            E.run_engine(E.load_schema(srv.url, raw=raw), E.engine_config(phases=phases, workers=workers,
                                                                            max_examples=10, unique_inputs=True,
                                                                            seed=rng.randint(1, 9999)))
         reqs = [(p, q, m) for p, _, q, m in log]
@@ -274,7 +331,8 @@ def run(chk):
     limit_runs(chk, chk.budget(10, 120))
     examples_runs(chk, chk.budget(6, 60))
     after_stop_runs(chk, chk.budget(6, 60))
-    unique_runs(chk, chk.budget(3, 30))
+    ki_runs(chk, chk.budget(4, 40))
+    unique_runs(chk, chk.budget(5, 40))
     stateful_runs(chk, chk.budget(3, 30))
     if chk.thorough:
         rate_runs(chk, 4)
